@@ -135,6 +135,9 @@ func (r *run) local(p *replica, a api, e Ev, tx *txState) {
 		r.fail("nopanic", r.prop+".no-panic", fp, "r%d: %s panicked: %s", p.idx, c.name, msg)
 		panic(abortRun{})
 	}
+	if p.tw != nil && p.tw.mode == "rollback" && tx == nil && (c.read || err != nil) {
+		r.twinOutcome(p, c, ret, err)
+	}
 	if c.read {
 		if c.valid && err != nil {
 			r.fail("plain", "C03.return-matches-model", "read-error/"+e.Op, "r%d: %s returned error %v on valid arguments", p.idx, c.name, err)
